@@ -1,6 +1,16 @@
 """What each registered check claims (source of MANIFEST.json; see tools/gen_manifest.py)."""
 
 CLAIMS = {
+    "C13": {
+        "text": "Claimed for structure only: both eliminations are evaluated as ordered lists of guarded update statements on (A, b); the generic and the "
+                "float-matrix implementation must have identical lists (sibling agreement — a change to one not mirrored in the other is reported), the "
+                "row swap must be immediately followed by the rhs swap with the same (j,k) under j != k with k = argabsmax(A[j.., j]) + j, argabsmax "
+                "must compare absolute values; back substitution is x[i] = (b[i] - u[i,i+1..].x[i+1..])/u[i,i] descending in both; with allow_lsq the "
+                "system is (A^T A, A^T b) from the same transposed operand. Numerical correctness of elimination is NOT decided.",
+        "design_ref": "DESIGN.md §4 C13",
+        "note": "Not decided (declared): that the returned vector solves the system in value and derivatives for all well-conditioned inputs; row-order independence.",
+        "technique": "sibling cross-check of canonical update-statement lists; call pairing with index agreement; idiom check",
+    },
     "C09": {
         "text": "Partial correctness (safety) of the FX market: try_new's paths are flattened — empty / under- / over-specified / inconsistent-settlement "
                 "inputs each give Err and create_fx_array is reached only when all are false (settlement guard checked as the exact forall-shape); every "
